@@ -209,7 +209,13 @@ impl Property for C08 {
             if !deep.is_empty() {
                 let n = *rng.pick(&deep);
                 let p = n.path().to_string();
-                let st = if rng.chance(1, 3) { format!("./{p}") } else { p };
+                let is_dir = matches!(n, tree::Node::Dir { .. });
+                let st = match rng.weighted(&[4, 2, if is_dir { 2 } else { 0 }]) {
+                    0 => p,
+                    1 => format!("./{p}"),
+                    // spelled through `..`: names the parent of p; its own basename is `..`
+                    _ => format!("{p}/.."),
+                };
                 if rng.chance(1, 2) {
                     starts = vec![st];
                 } else {
